@@ -181,7 +181,8 @@ def build(stack):
     def ep_ctxfrozen():
         import types as _types
         return _types.MappingProxyType({'b': 'kb', 'own': 1})     # a read-only mapping as render context
-    routes = [('/ctxfrozen', ep_ctxfrozen, render_any), ('/textchunks', ep_textchunks), ('/noctype', ep_noctype), ('/nocontent', ep_204),
+    from clastic.utils import Redirector
+    routes = [('/rdr', Redirector('/resp?b=kb', code=302)), ('/ctxfrozen', ep_ctxfrozen, render_any), ('/textchunks', ep_textchunks), ('/noctype', ep_noctype), ('/nocontent', ep_204),
               ('/ctxlist', ep_ctxlist, render_any), ('/ctxstr', ep_ctxstr, render_any),
               ('/resp', ep_resp), ('/ctx', ep_ctx, render), ('/stream', ep_stream), ('/deflated', ep_deflated), ('/redir', ep_redir),
               ('/branch/', ep_resp),
@@ -211,6 +212,7 @@ def request_catalogue():
     for ck in sorted(COOKIE_HDRS):
         out.append((ck, '/resp', 'GET', 'b=kb', b''))
     out.append(('cookie-nonascii-key-404', '/zz/top', 'GET', '', b''))
+    out.append(('redirector', '/rdr', 'GET', '', b''))
     out.append(('ctxfrozen', '/ctxfrozen', 'GET', '', b''))
     out.append(('textchunks', '/textchunks', 'GET', '', b''))
     out.append(('noctype', '/noctype', 'GET', '', b''))
@@ -305,7 +307,7 @@ def check_stack(acc, stack, baseline_app, cache):
     for rlabel, path, method, qx, body in itertools.chain(*passes):
         for q in QUERIES:
             query = '&'.join(x for x in (qx, q) if x)
-            aes = AE if (rlabel.startswith('resp-') or rlabel.startswith('ctx-') or rlabel in ('raise4', 'ret4', 'fallthrough', 'stream', 'deflated')) else AE[:3]
+            aes = AE if (rlabel.startswith('resp-') or rlabel.startswith('ctx-') or rlabel in ('raise4', 'ret4', 'fallthrough', 'stream', 'deflated', 'redirector')) else AE[:3]
             if q and not rlabel.startswith('resp-k'):
                 aes = aes[:2]
             for ae in aes:
